@@ -133,6 +133,26 @@ CHECKS["C22"] = (
     "DESIGN.md §6 C22",
 )
 
+CHECKS["C19"] = (
+    "Lean 4 theorems over the glue model: path and stdin emit the same fixed text for every attribute vector (no fatal errors); the "
+    "API agrees whenever a countable fixable violation exists; the remaining divergences (API with `ignore=linting`; two stdin exit-code "
+    "cases) are characterised exactly by kernel-checked witnesses and listed as known findings. End-to-end: the same SQL and config through "
+    "CLI path, CLI stdin with --stdin-filename and the Python API - violations, fixed text and exit status compared; model predictions "
+    "compared with all of them. One divergence repaired (fix: 0d5587f).",
+    "Lean 4 proof over the entry-point glue + end-to-end differential correspondence across the three entry points",
+    "Lean kernel; standard axioms; the shared core (lint_string) is abstract; same-configuration assumption (one explicit config file)",
+    "DESIGN.md §6 C19",
+)
+CHECKS["C34"] = (
+    "Lean 4 theorems for the size gates (skip iff limit>0 and size>limit; zero disables) and the skip-fail exit; real CLI runs at "
+    "limit-1/limit/limit+1 bytes and characters (ASCII and multi-byte) x lint/fix x serial/parallel x large_file_skip_fail check that "
+    "oversized files are never parsed, linted or rewritten and that the exit code follows large_file_skip_fail. The deprecated "
+    "character limit is a listed known finding (not counted as skipped).",
+    "Lean 4 proof of decision logic + exhaustive boundary correspondence through the real CLI",
+    "Lean kernel; standard axioms; os.path.getsize / len() are the size oracles",
+    "DESIGN.md §6 C34",
+)
+
 NOT_YET = {}
 
 
